@@ -23,8 +23,10 @@ fn build(target: &str) -> Result<(), String> {
     Ok(())
 }
 
-/// Run a fixed-work campaign: `runs` executions from the committed seed corpus (and once more from an empty corpus).
+/// Run a fixed-work campaign: `runs` executions from the committed seed corpus and `runs / 4` from an empty corpus, each
+/// split over PAR independent libFuzzer processes (own corpus copy, own seed) so that all cores are used.
 pub fn campaign(run: &Run, target: &str, runs: u64, max_len: u32) {
+    const PAR: u64 = 8;
     if let Err(e) = build(target) {
         run.extra(&format!("fuzz_{target}"), json!({"status": "not run: fuzz build unavailable", "reason": e}));
         return;
@@ -32,38 +34,50 @@ pub fn campaign(run: &Run, target: &str, runs: u64, max_len: u32) {
     let mut total = 0u64;
     let mut reports = vec![];
     for (label, seeded) in [("seeded-corpus", true), ("empty-corpus", false)] {
-        let work = format!("{VERIF}/work/fuzz-{target}-{}-{label}", std::process::id());
-        let _ = std::fs::remove_dir_all(&work);
-        std::fs::create_dir_all(&work).unwrap();
-        if seeded {
-            if let Ok(rd) = std::fs::read_dir(format!("{VERIF}/corpus/{target}")) {
-                for e in rd.flatten() {
-                    let _ = std::fs::copy(e.path(), format!("{work}/{}", e.file_name().to_string_lossy()));
-                }
-            }
-        }
-        let art = format!("{work}-artifacts/");
-        std::fs::create_dir_all(&art).unwrap();
-        let n = if seeded { runs } else { runs / 4 };
-        let out = Command::new(target_bin(target))
-            .arg(&work)
-            .args([&format!("-runs={n}"), &format!("-seed={}", (run.seed % 4_000_000_000).max(1)), "-len_control=0", &format!("-max_len={max_len}"), &format!("-artifact_prefix={art}"), "-print_final_stats=1"])
-            .output();
-        let Ok(out) = out else {
-            run.extra(&format!("fuzz_{target}"), json!({"status": "not run: target binary missing"}));
-            return;
-        };
-        let err = String::from_utf8_lossy(&out.stderr).into_owned();
-        let done: u64 = err.lines().find(|l| l.starts_with("stat::number_of_executed_units:")).and_then(|l| l.rsplit(' ').next()).and_then(|x| x.trim().parse().ok()).unwrap_or(0);
-        total += done;
+        let n = (if seeded { runs } else { runs / 4 }) / PAR;
+        let results: Vec<(u64, bool, Option<i32>, String, Vec<std::path::PathBuf>, String, String)> = std::thread::scope(|sc| {
+            let hs: Vec<_> = (0..PAR)
+                .map(|k| {
+                    sc.spawn(move || {
+                        let work = format!("{VERIF}/work/fuzz-{target}-{}-{label}-{k}", std::process::id());
+                        let _ = std::fs::remove_dir_all(&work);
+                        std::fs::create_dir_all(&work).unwrap();
+                        if seeded {
+                            if let Ok(rd) = std::fs::read_dir(format!("{VERIF}/corpus/{target}")) {
+                                for e in rd.flatten() {
+                                    let _ = std::fs::copy(e.path(), format!("{work}/{}", e.file_name().to_string_lossy()));
+                                }
+                            }
+                        }
+                        let art = format!("{work}-artifacts/");
+                        std::fs::create_dir_all(&art).unwrap();
+                        let seed = ((run.seed.wrapping_add(k * 7919)) % 4_000_000_000).max(1);
+                        let out = Command::new(target_bin(target))
+                            .arg(&work)
+                            .args([&format!("-runs={n}"), &format!("-seed={seed}"), "-len_control=0", &format!("-max_len={max_len}"), &format!("-artifact_prefix={art}"), "-print_final_stats=1"])
+                            .output();
+                        let Ok(out) = out else {
+                            return (0, false, None, String::new(), vec![], work, art);
+                        };
+                        let err = String::from_utf8_lossy(&out.stderr).into_owned();
+                        let done: u64 = err.lines().find(|l| l.starts_with("stat::number_of_executed_units:")).and_then(|l| l.rsplit(' ').next()).and_then(|x| x.trim().parse().ok()).unwrap_or(0);
+                        let arts: Vec<std::path::PathBuf> = std::fs::read_dir(&art).map(|rd| rd.flatten().map(|e| e.path()).collect()).unwrap_or_default();
+                        (done, out.status.success(), out.status.code(), err, arts, work, art)
+                    })
+                })
+                .collect();
+            hs.into_iter().map(|h| h.join().expect("fuzz runner thread")).collect()
+        });
+        let mut done_all = 0;
         let mut crashed = false;
-        if let Ok(rd) = std::fs::read_dir(&art) {
-            for e in rd.flatten() {
+        for (done, success, code, err, arts, work, art) in results {
+            done_all += done;
+            for a in &arts {
                 crashed = true;
                 let dir = format!("{VERIF}/replays/found/{}", run.prop);
                 let _ = std::fs::create_dir_all(&dir);
-                let dest = format!("{dir}/fuzz-{target}-{}", e.file_name().to_string_lossy());
-                let _ = std::fs::copy(e.path(), &dest);
+                let dest = format!("{dir}/fuzz-{target}-{}", a.file_name().map(|x| x.to_string_lossy().into_owned()).unwrap_or_default());
+                let _ = std::fs::copy(a, &dest);
                 let msg = err.lines().filter(|l| l.contains("VIOLATION")).take(2).collect::<Vec<_>>().join(" | ");
                 let v = Violation::new(format!("fuzz/{target}"), format!("libFuzzer target {target} found a failing input ({label}): {msg}"));
                 // artefacts are raw inputs: the replay path is the artefact itself
@@ -72,13 +86,14 @@ pub fn campaign(run: &Run, target: &str, runs: u64, max_len: u32) {
                 println!("  | {}", v.detail);
                 run.record_violation(&format!("fuzz-{target}"), &v, json!({"artifact": dest}), json!({"stderr_tail": err.lines().rev().take(15).collect::<Vec<_>>()}));
             }
+            if !success && arts.is_empty() {
+                reports.push(json!({"corpus": label, "status": format!("a target process exited with {code:?} without an artefact")}));
+            }
+            let _ = std::fs::remove_dir_all(&work);
+            let _ = std::fs::remove_dir_all(&art);
         }
-        if !out.status.success() && !crashed {
-            reports.push(json!({"corpus": label, "status": format!("target exited with {:?} without an artefact", out.status.code())}));
-        }
-        reports.push(json!({"corpus": label, "executions": done, "crashed": crashed}));
-        let _ = std::fs::remove_dir_all(&work);
-        let _ = std::fs::remove_dir_all(&art);
+        total += done_all;
+        reports.push(json!({"corpus": label, "processes": PAR, "executions": done_all, "crashed": crashed}));
     }
     run.count_eval(total);
     run.label_n(&format!("fuzz/{target}/executions"), total);
